@@ -49,8 +49,13 @@ def run(ctx, rep):
     from ..astutil import always_exits, body_wo_doc
     body = body_wo_doc(f.node)
     ends_in_raise = bool(body) and (isinstance(body[-1], ast.Raise) or (isinstance(body[-1], ast.If) and always_exits([body[-1]])))
-    rep.check(ends_in_raise and all(r.value is not None for r in returns(f)), "O1", f, "fall-through", "unsupported pairs raise TypeError",
-              "an unsupported type pair falls through without an error", node=f.node)
+    if not branches:
+        # no if-chain on the operand types at all (e.g. a lookup table keyed by the type pair): the dispatch is not read, so nothing
+        # can be said about what an unsupported pair does
+        rep.undecided("O1", f, "dispatch", "no branch on the types of %s / %s found: the dispatch is outside the recognised forms" % (p1, p2))
+    else:
+        rep.check(ends_in_raise and all(r.value is not None for r in returns(f)), "O1", f, "fall-through", "unsupported pairs raise TypeError",
+                  "an unsupported type pair falls through without an error", node=f.node)
     # ---- O3
     for name in ("_tensor_product_MProcess_MProcess", "_tensor_product_StateEnsemble_StateEnsemble", "_tensor_product_Povm_Povm"):
         h = ix.func(OP + name)
